@@ -290,7 +290,7 @@ func main() {
 		return strings.Join(results[i].Shape, ",") < strings.Join(results[j].Shape, ",")
 	})
 	exit := 0
-	nviol, nknown, ninc := 0, 0, 0
+	nviol, nknown, ninc, nreported := 0, 0, 0, 0
 	queries := map[string]int{}
 	funcs := map[string]int{}
 	stubs := map[string]int{}
@@ -366,8 +366,10 @@ func main() {
 					continue
 				}
 				nviol++
-				if nviol > 3 {
-					// further violating cases are counted but not replayed one by one
+				if nreported >= 3 || nviol > 10 {
+					// further violating cases are counted but not replayed one by one: up to three
+					// reported violations, at most ten replay attempts (a native run that depends
+					// on goroutine timing may fail to reproduce one case and reproduce the next)
 					continue
 				}
 				os.MkdirAll(replayDir, 0o755)
@@ -377,6 +379,7 @@ func main() {
 				os.WriteFile(path, rb, 0o644)
 				confirmed := replay(*prop, r, v, path)
 				if confirmed == "confirmed" || confirmed == "model-only" {
+					nreported++
 					lines = append(lines, fmt.Sprintf("VIOLATION property=%s replay=%s", *prop, path))
 					fmt.Fprintf(os.Stderr, "violation: %s at %s harness=%s shape=%v replay=%s\n", v.ID, v.Where, r.Harness, r.Shape, confirmed)
 					exit = 1
